@@ -32,6 +32,7 @@ def markersOK : (Topic → Bool) → List (Op × Out) → Prop
     match op, out with
     | .kill, _ => True
     | .crashAt _ _ _ _, _ => True
+    | .onB _, _ => True
     | .isClean _, .err .closed => markersOK e rest
     | .isClean t, o => o = .flag (e t) ∧ markersOK e rest
     | .append _ _, .err .closed => markersOK e rest
@@ -76,17 +77,37 @@ theorem withInst_none (p : Proc) (f : Inst → Proc × Inst × Out) (h : p.inst 
 theorem withInst_some (p : Proc) (f : Inst → Proc × Inst × Out) (i : Inst) (h : p.inst = some i) :
     withInst p f = ({ (f i).1 with inst := some (f i).2.1 }, (f i).2.2) := by unfold withInst; rw [h]
 
+/-- single-instance histories: the process has one instance, on directory 0 -/
+def Single (p : Proc) : Prop := p.curDir = 0 ∧ p.inst2 = none
+
+theorem single_of_side (p p' : Proc) (h : p'.side = p.side) (hs : Single p) : Single p' := by
+  unfold Proc.side at h
+  simp only [Prod.mk.injEq] at h
+  exact ⟨by rw [h.2.2]; exact hs.1, by rw [h.2.1]; exact hs.2⟩
+
+theorem withInst_side (p : Proc) (f : Inst → Proc × Inst × Out) (hf : ∀ i, p.inst = some i → (f i).1.side = p.side) :
+    (withInst p f).1.side = p.side := by
+  cases hi : p.inst with
+  | none => rw [withInst_none p f hi]
+  | some i => rw [withInst_some p f i hi]; exact hf i hi
+
 /-- an operation that goes through the live instance and leaves markers and directories alone -/
 theorem minv_withInst_frame (p : Proc) (e : Topic → Bool) (f : Inst → Proc × Inst × Out) (h : MInv p e)
-    (hf : ∀ i, p.inst = some i → (f i).1.dirs = p.dirs ∧ (f i).2.1.marks = i.marks) :
+    (hf : ∀ i, p.inst = some i → (f i).1.side = p.side ∧ (f i).2.1.marks = i.marks) :
     MInv (withInst p f).1 e := by
   cases hi : p.inst with
   | none => rw [withInst_none p f hi]; exact h
   | some i =>
     rw [withInst_some p f i hi]
-    exact minv_frame p _ i (f i).2.1 e hi (hf i hi).1 rfl (hf i hi).2 h
+    exact minv_frame p _ i (f i).2.1 e hi (congrArg (·.1) (hf i hi).1) rfl (hf i hi).2 h
 
-theorem runFrom_markersOK (c : Cfg) (ops : List Op) (p : Proc) (e : Topic → Bool) (h : MInv p e) :
+theorem closeSecond_single (p : Proc) (hs : Single p) : closeSecond p = p := by
+  obtain ⟨h1, h2⟩ := hs
+  unfold closeSecond closeInst
+  cases p
+  simp_all
+
+theorem runFrom_markersOK (c : Cfg) (ops : List Op) (p : Proc) (e : Topic → Bool) (h : MInv p e) (hs : Single p) :
     markersOK e (ops.zip (runFrom c p ops)) := by
   induction ops generalizing p e with
   | nil => trivial
@@ -95,53 +116,70 @@ theorem runFrom_markersOK (c : Cfg) (ops : List Op) (p : Proc) (e : Topic → Bo
     cases op with
     | kill => simp [markersOK]
     | crashAt k n fd o => simp [markersOK]
-    | clock ms => simp only [markersOK, step]; exact ih _ _ h
+    | onB o => simp [markersOK]
+    | clock ms => simp only [markersOK, step]; exact ih _ _ h hs
     | open_ mode =>
-      simp only [markersOK, step]
+      simp only [markersOK, step, hs.1]
       have hc := minv_closeInst p e h
-      exact ih _ _ (minv_open c _ mode e hc.1 hc.2)
-    | close => simp only [markersOK, step]; exact ih _ _ (minv_closeInst p e h).2
+      obtain ⟨i', _, _, hside⟩ := openInst_marks c (closeInst p) 0 mode
+      refine ih _ _ (minv_open c _ mode e hc.1 hc.2) (single_of_side _ _ hside ?_)
+      unfold closeInst; split <;> exact hs
+    | close =>
+      simp only [markersOK, step]
+      refine ih _ _ (minv_closeInst p e h).2 ?_
+      unfold closeInst; split <;> exact hs
     | restart =>
-      simp only [markersOK, step]
+      simp only [markersOK, step, closeSecond_single p hs]
       apply ih
-      have hc := minv_closeInst p e h
-      unfold restartProc MInv
-      simp only [hc.1]
-      have := hc.2
-      unfold MInv at this
-      rw [hc.1] at this
-      exact this
-    | persist => simp only [markersOK, step]; exact ih _ _ (minv_persist p e h)
+      · have hc := minv_closeInst p e h
+        unfold restartProc MInv
+        simp only [hc.1]
+        have := hc.2
+        unfold MInv at this
+        rw [hc.1] at this
+        exact this
+      · unfold restartProc closeInst; split <;> exact hs
+    | persist =>
+      simp only [markersOK, step]
+      refine ih _ _ (minv_persist p e h) ?_
+      unfold persistMarkers; split
+      · exact hs
+      · split <;> exact hs
     | reclaim =>
       simp only [markersOK, step]
       apply ih
-      unfold MInv reclaim at *
-      exact h
-    | ls => simp only [markersOK, step]; exact ih _ _ h
+      · unfold MInv reclaim at *
+        exact h
+      · unfold reclaim; exact hs
+    | ls => simp only [markersOK, step]; exact ih _ _ h hs
     | trk n =>
       simp only [markersOK, step]
-      split <;> exact ih _ _ h
-    | trks => simp only [markersOK, step]; exact ih _ _ h
+      split <;> exact ih _ _ h hs
+    | trks => simp only [markersOK, step]; exact ih _ _ h hs
     | count t =>
       simp only [step]
       have := minv_withInst_frame p e (fun i => (p, i, .num ((i.counts.get? t).getD 0))) h (fun i _ => ⟨rfl, rfl⟩)
-      simp only [markersOK]; exact ih _ _ this
+      have hside := withInst_side p (fun i => (p, i, .num ((i.counts.get? t).getD 0))) (fun i _ => rfl)
+      simp only [markersOK]; exact ih _ _ this (single_of_side _ _ hside hs)
     | size t =>
       simp only [step]
       have := minv_withInst_frame p e (fun i => (p, i, .num (topicSize i t))) h (fun i _ => ⟨rfl, rfl⟩)
-      simp only [markersOK]; exact ih _ _ this
+      have hside := withInst_side p (fun i => (p, i, .num (topicSize i t))) (fun i _ => rfl)
+      simp only [markersOK]; exact ih _ _ this (single_of_side _ _ hside hs)
     | next t cp =>
       simp only [step]
       have := minv_withInst_frame p e (fun i => readNext c p i t cp) h (fun i _ => frame_readNext c p i t cp)
-      simp only [markersOK]; exact ih _ _ this
+      have hside := withInst_side p (fun i => readNext c p i t cp) (fun i _ => (frame_readNext c p i t cp).1)
+      simp only [markersOK]; exact ih _ _ this (single_of_side _ _ hside hs)
     | bread t m cp st =>
       simp only [step]
       have := minv_withInst_frame p e (fun i => batchRead c p i t m cp st) h (fun i _ => frame_batchRead c p i t m cp st)
-      simp only [markersOK]; exact ih _ _ this
+      have hside := withInst_side p (fun i => batchRead c p i t m cp st) (fun i _ => (frame_batchRead c p i t m cp st).1)
+      simp only [markersOK]; exact ih _ _ this (single_of_side _ _ hside hs)
     | isClean t =>
       simp only [step]
       cases hi : p.inst with
-      | none => rw [withInst_none _ _ hi]; simp only [markersOK]; exact ih _ _ h
+      | none => rw [withInst_none _ _ hi]; simp only [markersOK]; exact ih _ _ h hs
       | some i =>
         rw [withInst_some _ _ i hi]
         have hp : ({ p with inst := some i } : Proc) = p := by cases p; simp_all
@@ -150,64 +188,63 @@ theorem runFrom_markersOK (c : Cfg) (ops : List Op) (p : Proc) (e : Topic → Bo
           unfold MInv at h; rw [hi] at h; exact (h.2 t).1
         rw [hr]
         simp only [markersOK]
-        exact ⟨trivial, ih _ _ h⟩
+        exact ⟨trivial, ih _ _ h hs⟩
     | mark t b =>
       simp only [step]
       cases hi : p.inst with
-      | none => rw [withInst_none _ _ hi]; simp only [markersOK]; exact ih _ _ h
+      | none => rw [withInst_none _ _ hi]; simp only [markersOK]; exact ih _ _ h hs
       | some i =>
         rw [withInst_some _ _ i hi]
         simp only [markersOK]
-        exact ih _ _ (minv_mark p _ i _ e t b hi rfl rfl rfl h)
+        exact ih _ _ (minv_mark p _ i _ e t b hi rfl rfl rfl h) hs
     | append t pay =>
       simp only [step]
       cases hi : p.inst with
-      | none => rw [withInst_none _ _ hi]; simp only [markersOK]; exact ih _ _ h
+      | none => rw [withInst_none _ _ hi]; simp only [markersOK]; exact ih _ _ h hs
       | some i =>
         rw [withInst_some _ _ i hi]
         have hfr := frame_appendForTopic c p i t pay none
         have hm := minv_mark p { (appendForTopic c p i t pay).1 with inst := some (appendForTopic c p i t pay).2.1 }
-          i _ e t false hi hfr.1 rfl hfr.2 h
+          i _ e t false hi (congrArg (·.1) hfr.1) rfl hfr.2 h
         have hne := appendForTopic_ne_closed c p i t pay none
         rw [markersOK_append_ne _ _ _ _ _ hne]
-        exact ih _ _ hm
+        exact ih _ _ hm (single_of_side p _ hfr.1 hs)
     | batch t ps =>
       simp only [step]
       cases hi : p.inst with
-      | none => rw [withInst_none _ _ hi]; simp only [markersOK]; exact ih _ _ h
+      | none => rw [withInst_none _ _ hi]; simp only [markersOK]; exact ih _ _ h hs
       | some i =>
         rw [withInst_some _ _ i hi]
         have hfr := frame_batchAppendForTopic c p i t ps none
         have hm := minv_mark p { (batchAppendForTopic c p i t ps).1 with inst := some (batchAppendForTopic c p i t ps).2.1 }
-          i _ e t false hi hfr.1 rfl hfr.2 h
+          i _ e t false hi (congrArg (·.1) hfr.1) rfl hfr.2 h
         have hne := batchAppendForTopic_ne_closed c p i t ps none
         rw [markersOK_batch_ne _ _ _ _ _ hne]
-        exact ih _ _ hm
-
+        exact ih _ _ hm (single_of_side p _ hfr.1 hs)
     | appendF t pay flt =>
       simp only [step]
       cases hi : p.inst with
-      | none => rw [withInst_none _ _ hi]; simp only [markersOK]; exact ih _ _ h
+      | none => rw [withInst_none _ _ hi]; simp only [markersOK]; exact ih _ _ h hs
       | some i =>
         rw [withInst_some _ _ i hi]
         have hfr := frame_appendForTopic c p i t pay (some flt)
         have hm := minv_mark p { (appendForTopic c p i t pay (some flt)).1 with inst := some (appendForTopic c p i t pay (some flt)).2.1 }
-          i _ e t false hi hfr.1 rfl hfr.2 h
+          i _ e t false hi (congrArg (·.1) hfr.1) rfl hfr.2 h
         have hne := appendForTopic_ne_closed c p i t pay (some flt)
         rw [markersOK_appendF_ne _ _ _ _ _ _ hne]
-        exact ih _ _ hm
+        exact ih _ _ hm (single_of_side p _ hfr.1 hs)
     | batchF t ps flt =>
       simp only [step]
       cases hi : p.inst with
-      | none => rw [withInst_none _ _ hi]; simp only [markersOK]; exact ih _ _ h
+      | none => rw [withInst_none _ _ hi]; simp only [markersOK]; exact ih _ _ h hs
       | some i =>
         rw [withInst_some _ _ i hi]
         have hfr := frame_batchAppendForTopic c p i t ps (some flt)
         have hm := minv_mark p { (batchAppendForTopic c p i t ps (some flt)).1 with inst := some (batchAppendForTopic c p i t ps (some flt)).2.1 }
-          i _ e t false hi hfr.1 rfl hfr.2 h
+          i _ e t false hi (congrArg (·.1) hfr.1) rfl hfr.2 h
         have hne := batchAppendForTopic_ne_closed c p i t ps (some flt)
         rw [markersOK_batchF_ne _ _ _ _ _ _ hne]
-        exact ih _ _ hm
+        exact ih _ _ hm (single_of_side p _ hfr.1 hs)
 
 /-- **C17.** Along any history of engine operations — appends, batch appends, `mark_topic_clean`,
 `mark_topic_dirty`, reads, reclamation, clean reopen events and process restarts at any point, the
@@ -215,9 +252,10 @@ background persister running at any point or never — every `topic_is_clean` qu
 latest returned call on that topic prescribes. -/
 theorem C17_markers (c : Cfg) (ops : List Op) : markersOK (fun _ => true) (ops.zip (run c ops)) := by
   apply runFrom_markersOK
-  unfold MInv
-  intro t
-  rfl
+  · unfold MInv
+    intro t
+    rfl
+  · exact ⟨rfl, rfl⟩
 
 /-! Non-vacuity: a history with an append, explicit marks, an immediate restart (no persister pass)
 and a reopen; evaluated by the kernel on the model (small geometry). -/
